@@ -20,7 +20,8 @@ def run(ctx):
         q22 += [('bad', 12, bad[:2], way('V', 'F')), ('bad', 12, bad[:2], wayu)]
     if not quick:
         q22 += [('bad', 36, [b]) for b in bad]
-    configs.append(('2x2', cfg22, q22, ['c01', 'c05'] if not quick else []))
+    if not quick:      # (measured: the 2x2 relation and one waypoint chain alone cost about 7 minutes: thorough tier only)
+        configs.append(('2x2', cfg22, q22, ['c01', 'c05']))
     proto.run(ctx, 'C01', configs,
               'transition relation of the real v2 transaction/proposal reconcilers with two targets; contracts "commit opens only when '
               'every proposal is VALIDATED", "values change only in the commit phase" + BMC of the all-or-nothing state predicates',
